@@ -9,6 +9,8 @@ for d in sorted(glob.glob('/verif/seeded/*/')):
         m = json.load(open(mp))
     except ValueError:
         m = {"raw_meta": open(mp).read()}
+    if m.get("confirmed_by_lead", {}).get("note"):
+        continue  # hand-corrected entry (its confirm.log is stale); do not overwrite
     log = open(cp).read()
     def grab(pat):
         r = re.search(pat, log)
